@@ -106,8 +106,43 @@ def stopV : P String := do
   let es : List (Entry Float) := xs.map (fun x => ⟨⟨.volFrac, .gt, 0.0, 0⟩, x.1, ⟨x.2, 0.0⟩⟩)
   pure (bstr (stopFlag es))
 
+/-- one call of a history (see `KawinV.StopCond.Op`) -/
+def op : P (Op Float) := do
+  let t ← tok
+  match t with
+  | "A" => do let i ← nat; let o ← bool; pure (.add i o)
+  | "C" => pure .clear
+  | "R" => pure .reset
+  | "S" => do let d ← pdata; let tf ← flt; let fuel ← nat; let k0 ← nat; pure (.solve d tf fuel k0)
+  | "T" => do let is ← lst nat; pure (.ttpInit is)
+  | _ => failure
+
+def showReg (k : Nat) (s : Reg Float) : String :=
+  let ls := (List.range k).map (fun i => showLatch (s.latches i))
+  let rs := s.reg.map (fun r => s!"{r.1} {bstr r.2}")
+  " ".intercalate (ls ++ (toString s.reg.length :: rs))
+
+/-- sc.hist  names k conds(k)  nops ops   — a whole history of calls on ONE model, all pool objects new (clear)
+    → after every call: last row and stopped-early of that call (0 F unless it is a solve), the k pool latches,
+      the registered list (index, mode) -/
+def hist : P String := do
+  let ph ← lst tok; let el ← lst tok
+  let k ← nat
+  let cs ← rep (cond ph el) k
+  let ops ← lst op
+  if cs.any (fun c => c.isNone) then pure "raise" else
+  let ca := (cs.filterMap id).toArray
+  let conds : Nat → Cond Float := fun i => ca.getD i ⟨.volFrac, .gt, 0.0, 0⟩
+  let (_, out) := ops.foldl (fun (acc : Reg Float × List String) o =>
+      let (m, b, s') : Nat × Bool × Reg Float := match o with
+        | .solve d tf fuel k0 => acc.1.solve conds d tf fuel k0
+        | o => (0, false, acc.1.step conds o)
+      (s', s!"{m} {bstr b} {showReg k s'}" :: acc.2)) (Reg.fresh, [])
+  pure (" ".intercalate (toString ops.length :: out.reverse))
+
 def handle (verb : String) : Option (P String) :=
   match verb with
+  | "sc.hist" => some hist
   | "sc.seq" => some seq
   | "sc.run" => some runV
   | "sc.ttp" => some ttp
